@@ -139,6 +139,8 @@ class Relations:
         return self._norm[k]
 
     def is_zero(self, e) -> bool:
+        if sp.count_ops(e) > 20000:
+            raise SymUnsupported("expression too large for the algebraic decision")
         num = sp.numer(sp.together(sp.expand(e)))
         num = sp.expand(num)
         for _ in range(12):
@@ -470,7 +472,37 @@ class _Return(Exception):
         self.value = value
 
 
-def householder_obligations(fn: ast.FunctionDef, n: int, strip_col: int, metric: str):
+class _Budget:
+    """wall-clock budget for one symbolic evaluation (sympy can blow up on unusual algebra): SymUnsupported when exceeded"""
+
+    def __init__(self, seconds):
+        self.seconds = seconds
+
+    def __enter__(self):
+        import signal
+        import threading
+        self.armed = threading.current_thread() is threading.main_thread() and hasattr(signal, "setitimer")
+        if self.armed:
+            def _raise(signum, frame):
+                raise SymUnsupported(f"symbolic evaluation exceeded its budget of {self.seconds}s")
+            self.old = signal.signal(signal.SIGALRM, _raise)
+            signal.setitimer(signal.ITIMER_REAL, self.seconds)
+        return self
+
+    def __exit__(self, *exc):
+        if self.armed:
+            import signal
+            signal.setitimer(signal.ITIMER_REAL, 0)
+            signal.signal(signal.SIGALRM, self.old)
+        return False
+
+
+def householder_obligations(fn: ast.FunctionDef, n: int, strip_col: int, metric: str, budget: float = 10.0):
+    with _Budget(budget):
+        return _householder_obligations(fn, n, strip_col, metric)
+
+
+def _householder_obligations(fn: ast.FunctionDef, n: int, strip_col: int, metric: str):
     """Evaluate `compute_orthonormal_basis(dgamma_t0, G_metric, strip_col)` symbolically.
     Returns dict(orthogonal=[bool per column], orthonormal=bool, shape=...)."""
     names = [a.arg for a in fn.args.args + fn.args.kwonlyargs]
